@@ -31,7 +31,10 @@ RULE = ("formatter: one case per count; non-trivial when count >= 1000 (a prefix
 # registers counts / violations in ctx itself.  It must not touch the
 # formatter half above/below.
 def extra_cases(ctx):
-    return None
+    # report half (harness/stats_report.py): scale-stats stdout vs. the dataset
+    # actually produced by the real tools, judged by TLC (Trace_Pipeline)
+    from .. import stats_report
+    return stats_report.extra_cases(ctx)
 # ---------------------------------------------------------------------------
 
 
@@ -57,6 +60,9 @@ def replay(ctx, path):
     with open(path) as f:
         rp = json.load(f)
     d = rp["detail"]
+    if d.get("label") == "report":
+        from .. import stats_report
+        return stats_report.replay_report(ctx, path)
     if d.get("kind") != "readable_count":
         raise tlc.MachineryError("replay of this case kind belongs to the report half")
     from neuroglancer_scripts.utils import readable_count
